@@ -58,7 +58,7 @@ func (o *oracle) checkVerifierStrict(inst *Instance, ev *CkptEvent) {
 	if len(o.otherCkpts) > 0 {
 		prevOther = o.otherCkpts[r.Intn(len(o.otherCkpts))]
 	}
-	for k := 0; k < 14; k++ {
+	for k := 0; k < 15; k++ {
 		var mut []byte
 		name := ""
 		switch k {
@@ -127,6 +127,18 @@ func (o *oracle) checkVerifierStrict(inst *Instance, ev *CkptEvent) {
 		case 12:
 			name = "size-leading-zero"
 			mut = withSig(fmt.Sprintf("%s\n0%d\n%s\n", inst.name, ev.STH.Size, base64.StdEncoding.EncodeToString(ev.STH.Root[:])), sigLine)
+		case 14:
+			// the origin in another letter case (the RFC 6962 signature does not
+			// cover the origin line)
+			name = "origin-case"
+			alt := strings.ToUpper(inst.name)
+			if alt == inst.name {
+				alt = strings.ToLower(inst.name)
+			}
+			if alt == inst.name {
+				continue
+			}
+			mut = withSig(strings.Replace(n.Text, inst.name, alt, 1), sigLine)
 		case 13:
 			name = "sig-alg"
 			raw := bytes.Clone(sigRaw)
